@@ -1383,3 +1383,6 @@ benign_patch("refactor_s9_13", "benign/set9_refactor13.diff", note="BlockHandle:
 benign_patch("refactor_s9_14", "benign/set9_refactor14.diff", note="FileMetadata::deserialize: read_internal_key helper")
 benign_patch("refactor_s9_15", "benign/set9_refactor15.diff", note="BlockBuilder::add_entry: shared_prefix_length helper")
 benign_patch("refactor_s9_16", "benign/set9_refactor16.diff", note="record_read_sample: early return")
+mut("revert_D18", ["C09"], "ORD-19", patch="revert_D18_manual_request_withdrawn_early.diff", note="force_level_compaction withdraws its request while the compaction thread may still be working on it")
+mut("separator_may_equal_next_key", ["C13", "C01"], "GRD-27", patch="separator_may_equal_next_key.diff")
+mut("finalize_before_emptiness_test", ["C13", "C09"], "ORD-20", patch="finalize_before_emptiness_test.diff")
